@@ -259,6 +259,7 @@ func (e *Engine) buildQuerySliced(o *Obligation, axioms []axiomTerm, models bool
 type solveOpts struct {
 	timeout  int
 	seed     int
+	replayMore []ReplaySpec
 	portfolio bool // also run further seeds (used for the last, long attempt)
 	outDir   string
 	cacheDir string
